@@ -184,6 +184,7 @@ where C: Clone + Debug + Serialize + Send + Sync + 'static {
             let strategy_factory = strategy.clone();
             let run_case = run_case.clone();
             let context = context.clone();
+            let name_for_log = name.to_string();
             scope.spawn(move || {
                 crate::base::mark_harness_thread();
                 let strategy = strategy_factory();
@@ -239,7 +240,7 @@ where C: Clone + Debug + Serialize + Send + Sync + 'static {
                             Relevance::Inconclusive => {
                                 // something did not complete within the watchdog in a check that is not about progress: the
                                 // verdict is "inconclusive"; every further case would wait for the watchdog again, so stop here
-                                shared.inconclusive.fetch_add(1, Ordering::AcqRel);
+                                if shared.inconclusive.fetch_add(1, Ordering::AcqRel) == 0 { eprintln!("[{}] inconclusive case: {} ({})", name_for_log, failure.message, failure.tag); }
                                 shared.stop.store(true, Ordering::Release);
                             }
                         }
